@@ -235,3 +235,82 @@ def flag_truth_r(f, e, pol, r, depth=0):
                 return False
         return True
     return any(v == pol and feasible(b2) for b2, v in vals)
+
+
+def rule_zero_shortcircuit(col, facts):
+    """SIB-zero: every moderate-path back-end returns zero for a zero mantissa before it
+    normalises (`mantissa << leading_zeros` is a shift by 64 for zero)."""
+    R = "SIB-zero"
+    backends = []
+    if not facts.config.startswith("compact"):
+        backends.append((PF + "lemire::compute_float", "arg2"))
+    if facts.config.startswith("compact") or "radix" in facts.config:
+        backends.append((PF + "bellerophon::bellerophon", "num.mantissa"))
+    if "power-of-two" in facts.config or "radix" in facts.config:
+        backends.append((PF + "binary::binary", "num.mantissa"))
+    fields = facts.adts.get(PF + "number::Number", [{"fields": []}])[0]["fields"]
+    mi = fields.index("mantissa") if "mantissa" in fields else None
+    for name, what in backends:
+        f = facts.fn(name)
+
+        def is_mant(e):
+            e = strip_casts(e)
+            if what == "arg2":
+                return e[:2] == ("arg", 2) or (e[0] == "var" and f.names.get(e[1]) == "w")
+            return e[0] == "proj" and strip_casts(e[1])[:2] == ("arg", 1) and mi in [p for p in e[2] if isinstance(p, int)]
+        # every use of leading_zeros on the mantissa is dominated by (mantissa == 0) false
+        n = 0
+        for bb, c, a, d, t in f.calls():
+            if callee_name(c).endswith("::leading_zeros") or callee_name(c).endswith("bellerophon::normalize") or callee_name(c).endswith("bellerophon::mul"):
+                n += 1
+                conds = path_conditions(f, bb)
+                ok = any(strip_casts(e)[0] == "bin" and strip_casts(e)[1] == "Eq" and is_mant(strip_casts(e)[2]) and strip_casts(strip_casts(e)[3]) == ("k", 0) and p is False for _d, e, p in conds)
+                col.check(R, "%s:%s" % (last_seg(name), last_seg(callee_name(c))), ok,
+                          "%s is reached without a preceding `mantissa == 0` short-circuit: a zero mantissa would be normalised (shift by 64: panic in debug, garbage in release)" % last_seg(callee_name(c)), f.loc(f.blocks[bb]["ts"]))
+        col.floor(R, "normalising operations in %s" % last_seg(name), n, 1)
+
+
+def in_digit_loop(f, i):
+    """block i is inside the per-digit loop: dominated by the block that calls Iterator::next"""
+    for bb, c, a, d, t in f.calls():
+        if callee_name(c).endswith("Iterator::next") and f.dominates(bb, i):
+            return True
+    return False
+
+
+def rule_step_bounded_accumulation(col, facts):
+    """UNIT-step: slow_binary re-accumulates the mantissa; Number::exponent was computed for exactly
+    u64_step(radix) digits, so the accumulation must be bounded by the step counter, not by 64-bit
+    overflow alone (for radix 8 and 32 one more digit can fit)."""
+    if "power-of-two" not in facts.config and "radix" not in facts.config:
+        return
+    R = "UNIT-step"
+    f = facts.fn(PF + "binary::parse_u64_digits")
+    # step is the pointer parameter whose pointee is decremented
+    step_arg = None
+    for l, nm in f.names.items():
+        if nm == "step" and l <= f.argc:
+            step_arg = l
+    if step_arg is None:
+        for b in f.blocks:
+            for st in b["s"]:
+                if st[0] == "=" and st[1][1] == ["*"] and st[1][0] <= f.argc and "saturating_sub" in str(st[2]):
+                    step_arg = st[1][0]
+    n = 0
+    for bb, c, a, d, t in f.calls():
+        if callee_name(c).endswith("::checked_mul"):
+            n += 1
+            # a test of *step against 0 in a block that dominates the accumulation
+            ok = False
+            for i, b in enumerate(f.blocks):
+                tt = b["t"]
+                if tt["k"] == "switch" and f.live(i) and bb in reach_from(f, i) and in_digit_loop(f, i):
+                    e = strip_casts(op_expr(f, tt["d"]))
+                    if e[0] == "bin" and e[1] in ("Eq", "Ne", "Gt", "Lt", "Le", "Ge"):
+                        l, r = strip_casts(e[2]), strip_casts(e[3])
+                        if l[0] == "proj" and strip_casts(l[1])[:2] == ("arg", step_arg) and r == ("k", 0):
+                            # and the loop header (back edge) is above it: the test is inside the per-digit loop
+                            ok = True
+            col.check(R, "binary::parse_u64_digits", ok,
+                      "digits are accumulated until the u64 overflows, without comparing the step counter with 0: the mantissa can hold one digit more than u64_step(radix), which Number::exponent does not account for (radix 8, 32)", f.loc(f.blocks[bb]["ts"]))
+    col.floor(R, "accumulation sites", n, 1)
